@@ -268,6 +268,14 @@ Theorem C05_session_timer_reset : forall par d st o1 o2 pop1 pop2,
 Proof. exact session_timer_reset. Qed.
 Print Assumptions C05_session_timer_reset.
 
+(* several dispatcher objects used alternately (possibly built over one shared adapter, which keeps
+   no state): what dispatcher j answers is what it answers in its own session, whatever the others do *)
+Theorem C05_dispatchers_independent : forall par steps cfg j,
+  map snd (filter (fun ja => Nat.eqb (fst ja) j) (run_multi par cfg steps)) =
+  run_session (par j) (fst (cfg j)) (snd (cfg j)) (map snd (filter (fun js => Nat.eqb (fst js) j) steps)).
+Proof. exact multi_independent. Qed.
+Print Assumptions C05_dispatchers_independent.
+
 (* ---- the oracle's boolean predicates decide the propositions used above *)
 Theorem C05_in_scope_reflects : forall c,
   in_scope c = true <->
